@@ -51,7 +51,7 @@ pub async fn collect_frames(w: &World, rng: &mut Rng) -> Vec<Frame> {
     frames
 }
 
-fn drain(w: &World, dec: &mut StreamDecoder, trace: &mut Trace, sum: &mut Summary) -> bool {
+fn drain(w: &World, dec: &mut StreamDecoder, trace: &mut Trace, sum: &mut Summary, log_p: bool) -> bool {
     loop {
         let r = std::panic::catch_unwind(std::panic::AssertUnwindSafe(|| dec.decode()));
         sum.add("decode_calls", 1);
@@ -64,7 +64,8 @@ fn drain(w: &World, dec: &mut StreamDecoder, trace: &mut Trace, sum: &mut Summar
                 trace.emit(json!({"ev":"Dec","res":"need","p":{}}));
                 return true;
             }
-            Ok(Ok(Some(f))) => trace.emit(json!({"ev":"Dec","res":"frame","p":proj_frame(w, &f)})),
+            // decoded values of corrupted streams are arbitrary (huge integers, malformed ids): only the outcome is logged
+            Ok(Ok(Some(f))) => trace.emit(json!({"ev":"Dec","res":"frame","p": if log_p { proj_frame(w, &f) } else { json!({}) }})),
             Ok(Err(_)) => {
                 trace.emit(json!({"ev":"Dec","res":"err","p":{}}));
                 return false;
@@ -106,7 +107,7 @@ pub fn run(w: &World, seed: u64, rng: &mut Rng, n: usize, trace: &mut Trace, sum
                 trace.emit(json!({"ev":"Feed","n": c - prev}));
                 dec.feed(&stream[prev..*c]);
                 prev = *c;
-                alive = drain(w, &mut dec, trace, sum);
+                alive = drain(w, &mut dec, trace, sum, true);
             }
             trace.emit(json!({"ev":"End","buffered": dec.buffered()}));
         }
@@ -117,7 +118,7 @@ pub fn run(w: &World, seed: u64, rng: &mut Rng, n: usize, trace: &mut Trace, sum
             let mut dec = StreamDecoder::default();
             trace.emit(json!({"ev":"Feed","n": cut}));
             dec.feed(&stream[..cut]);
-            drain(w, &mut dec, trace, sum);
+            drain(w, &mut dec, trace, sum, true);
             trace.emit(json!({"ev":"End","buffered": dec.buffered()}));
         }
         // ---- one length prefix overwritten with MAX+1
@@ -130,7 +131,7 @@ pub fn run(w: &World, seed: u64, rng: &mut Rng, n: usize, trace: &mut Trace, sum
             let mut dec = StreamDecoder::default();
             trace.emit(json!({"ev":"Feed","n": total}));
             dec.feed(&s);
-            drain(w, &mut dec, trace, sum);
+            drain(w, &mut dec, trace, sum, true);
             trace.emit(json!({"ev":"End","buffered": dec.buffered()}));
         }
         // ---- single-byte corruption of a frame body (length prefix intact)
@@ -148,7 +149,7 @@ pub fn run(w: &World, seed: u64, rng: &mut Rng, n: usize, trace: &mut Trace, sum
             let mut dec = StreamDecoder::default();
             trace.emit(json!({"ev":"Feed","n": total}));
             dec.feed(&s);
-            drain(w, &mut dec, trace, sum);
+            drain(w, &mut dec, trace, sum, false);
             trace.emit(json!({"ev":"End","buffered": dec.buffered()}));
         }
         // ---- chaos: random bytes / corruption anywhere: only the outcome alphabet is specified
@@ -166,7 +167,7 @@ pub fn run(w: &World, seed: u64, rng: &mut Rng, n: usize, trace: &mut Trace, sum
             let mut dec = StreamDecoder::default();
             trace.emit(json!({"ev":"Feed","n": s.len()}));
             dec.feed(&s);
-            drain(w, &mut dec, trace, sum);
+            drain(w, &mut dec, trace, sum, false);
             trace.emit(json!({"ev":"End","buffered": dec.buffered()}));
         }
         // ---- the other decoders: round trip, corruption, random bytes
